@@ -644,7 +644,7 @@ class C01(OutcomeCheck):
     level_note = "partial: completeness of the partial-order reduction itself is validated by the oracle on bounded programs, not proved"
 
     def det_family(self, ctx):
-        return gen.fam_sync_core(ctx.tier)
+        return gen.fam_sync_core(ctx.tier) + gen.fam_yield_dpor()
 
     def rnd_family(self, ctx):
         n = 200 if ctx.tier == "quick" else 2000
@@ -934,7 +934,7 @@ class C15:
 
     def run(self, ctx):
         res = {"coverage": {}, "violations": [], "broken": [], "known": []}
-        base = gen.fam_bound_core(ctx.tier)
+        base = gen.fam_bound_core(ctx.tier) + gen.fam_yield_dpor()
         bounds = [0, 1, 2, 3] if ctx.tier == "quick" else [0, 1, 2, 3, 4, 5, 6]
         lines = []
         idx = {}
